@@ -638,15 +638,28 @@ static void step(ctx_t *c, int opi)
 		    rc, PK_UNKNOWN, NULL, obj);
 	return;
     case OP_CORR: {
-	static const double sigma[1] = { 0.1 };
+	static const double sigma[2] = { 0.1, 0.2 };
+	int nsig = 1;
 	if (free_slot(m) < 0)
 	    return;
 	h = resolve(m, o->a, &obj);
 	if (obj >= 0 && m->obj[obj].kind == PK_CORR)
 	    return;		/* chains of correlated: not modelled */
+	/*
+	 * vnacal_make_correlated_parameter(3): the sigma frequency vector
+	 * may be NULL with one sigma per frequency of the vector parameter
+	 * the chain of "other" parameters ends in (here: two frequencies).
+	 */
+	if (obj >= 0) {
+	    int end = obj;
+	    while (m->obj[end].kind == PK_UNKNOWN)
+		end = m->obj[end].other;
+	    if (m->obj[end].kind == PK_VECTOR)
+		nsig = 2;
+	}
 	c->issued = 1;
 	errno = 0;
-	rc = vnacal_make_correlated_parameter(c->vcp, h, NULL, 1, sigma);
+	rc = vnacal_make_correlated_parameter(c->vcp, h, NULL, nsig, sigma);
 	e = errno;
 	++c->r->transitions;
 	if (obj < 0) {
